@@ -476,7 +476,7 @@ def check(ctx):
         ctx.tlc("dump-" + name, rd)
         raws = raw_events(rd)
         if not raws:
-            raise core.Machinery("vacuity: the input space '%s' is empty" % name)
+            core.vacuity("the input space '%s' is empty" % name)
         total += len(raws)
         replay(ctx, name, raws, cov, rec, seen)
     # the sub-spaces overlap in a few inputs: count distinct inputs
@@ -501,7 +501,7 @@ def check(ctx):
     trace_validate(ctx, 20000 if thorough else 3000, rec, live, cov)
     missing = [k for k in required() if not cov.get(k)]
     if missing:
-        raise core.Machinery("vacuity: classes never exercised: %s" % ", ".join(missing))
+        core.vacuity("classes never exercised: %s" % ", ".join(missing))
     ctx.cov["classes_exercised"] = {k: cov[k] for k in sorted(cov) if not k.startswith(("text:", "addr:"))}
 
 
